@@ -48,12 +48,12 @@ pub fn gen_spectated(r: &mut Rng, frames: i32) -> Scn {
 pub fn cases(ctx: &Ctx) -> Vec<WCase> {
     let mut out = vec![];
     let mut r = Rng::new(ctx.seed ^ 0xC06);
-    for i in 0..ctx.n(1500, 60_000) {
+    for i in 0..ctx.n(5000, 250_000) {
         let mut rr = r.fork(i as u64);
         out.push(wcase(format!("spec-{i}"), gen_spectated(&mut rr, 500)));
     }
     // host-side player death
-    for i in 0..ctx.n(500, 20_000) {
+    for i in 0..ctx.n(2000, 80_000) {
         let mut rr = r.fork(0x2000_0000 + i as u64);
         let mut s = gen_death2(&mut rr, 500);
         let mut sp = SpecCfg::new(0);
@@ -64,7 +64,7 @@ pub fn cases(ctx: &Ctx) -> Vec<WCase> {
         out.push(wcase(format!("death-{i}"), s));
     }
     // differential: the same scenario with and without spectators
-    for i in 0..ctx.n(500, 20_000) {
+    for i in 0..ctx.n(2000, 80_000) {
         let mut rr = r.fork(0x3000_0000 + i as u64);
         let mut s = gen_spectated(&mut rr, 400);
         if s.peers.len() < 2 {
